@@ -346,3 +346,22 @@ def pre_checks(tier, seed, log):
     else:
         res("property", "SMT_INCONCLUSIVE", messages=[{"state": "UNKNOWN", "message": f"z3 answered {r_}"}], sample=sample)
     return results
+
+
+def thorough_extra(seed):
+    jobs = []
+    for name, extra in shard_extras("a"):
+        jobs.append({"harness": "alphabet", "params": {"k": 2, "shard": name, "shard_extra": extra}, "weight": 18})
+    menu = [""] + SPELLED_PREFIX + list(PREFIX_MENU)
+    for fname, frame in FRAMES.items():
+        for word, idx in CASE_IDX.items():
+            base = {"cfg": CM, "frame": list(frame), "word": word, "case_idx": idx, "name": f"{fname}-{word}-cm"}
+            jobs.append({"harness": "producer", "params": dict(base, prefix_menu=menu), "weight": 6})
+            if fname in ("link", "autolink", "refdef") and word in ("file", "javascript"):
+                # one fully symbolic prefix character (ASCII + non-ASCII representatives): 10-30 CPU-s per path
+                jobs.append({"harness": "producer", "params": dict(base, cfg=JS, prefix_free=True, case_idx=idx[:1], name=f"{fname}-{word}-freeprefix"),
+                             "weight": 40, "path_cap": 120})
+    for j in jobs:
+        j["cpu_cap"] = 6000
+        j["wall_cap"] = 7200
+    return jobs
